@@ -181,3 +181,42 @@ def _matches_table(ctx, P):
     ctx.ob("R5", "TriplePattern::matches#table", all(comps.values()) and has_true and not extra,
            what="TriplePattern::matches must reject exactly when a bound component differs from the triple's component of the same "
                 "name (components checked: %s, unexpected rows at lines %s)" % (comps, extra), where=f.loc())
+
+    # ---- R7 removing a triple drops exactly that triple from each index: the predicate handed to retain() in
+    # RdfStore::remove lets an entry go (returns false) only on paths where the entry equals the removed triple -
+    # a whole-triple comparison, or equality of at least the two components that the index key does not fix.
+    rm = P.fn("RdfStore::remove")
+    COMPS = ("subject", "predicate", "object")
+    ncl = 0
+    for g in sorted((g for g in P.fns.values() if g.kind == "closure" and g.parent == rm.id and g.local_ty(0) == "bool"), key=lambda g: g.id):
+        ncl += 1
+
+        def comps_of(a, b):
+            """components on which a comparison of tag sets a, b compares an entry with the removed triple; 'whole' for a
+            comparison of the triples themselves"""
+            both = a | b
+            cs = {c for c in COMPS if ("call:Triple::" + c) in a and ("call:Triple::" + c) in b}
+            if not cs and not any(("call:Triple::" + c) in both for c in COMPS) and any(t.startswith("upvar:") for t in both):
+                return {"whole"}
+            return cs
+        bad = []
+        for v, facts, bi, ln in return_table(P, g):
+            eq = set()
+            for x in facts:
+                if x[0] == "cmp" and x[1] == "Eq":
+                    eq |= comps_of(x[2], x[3])
+            if v[0] == "const" and v[1] in ("1", "true"):
+                continue
+            if v[0] == "cmp" and v[1] == "Ne":
+                eq |= comps_of(v[2], v[3])
+            elif v[0] == "cmp" and v[1] == "Eq":
+                pass     # `a == b` returned: false means they differ, nothing more is known
+            elif not (v[0] == "const" and v[1] in ("0", "false")):
+                bad.append("line %s: result %s is not a comparison the rule understands" % (ln, v[0]))
+                continue
+            if "whole" not in eq and len(eq) < 2:
+                bad.append("line %s: an entry is dropped when only %s equals the removed triple's" % (ln, sorted(eq) or "nothing"))
+        ctx.ob("R7", "RdfStore::remove#retain[%s]" % g.id.split("{closure#")[-1].rstrip("}"), not bad,
+               what="index maintenance in RdfStore::remove drops entries that are not the removed triple (%s): lookups through "
+                    "that index lose triples that are still in the set" % "; ".join(bad), where=g.loc())
+    ctx.floor("R7", ncl, 3, "retain predicates in RdfStore::remove")
